@@ -96,3 +96,186 @@ def dump(out, grids, rng, thorough, optsets_fn, max_dofs=4):
                                                          int(bc.local2global[int(x), int(np.flatnonzero(ee[:, int(x)] == e)[0])])]
                                                         for x in bg.edge_neighbors[e]] for e in used_edges}})
     out["bc_cases"] = cases
+
+
+# ------------------------------------------------------------------------------------------------------------
+# Failing-input search on the BC functions themselves: documented pole fluxes and renumbering invariance
+def _coarse_support(bc):
+    return sorted(set(int(b) // 6 for b in bc.support_elements))
+
+
+def _pole_class(open1, open2, n1, n2):
+    kind = {(True, True): "border-border", (False, False): "interior-interior"}.get((open1, open2), "border-interior")
+    return kind + ("" if n1 == n2 else ",unequal cell counts")
+
+
+def pole_fluxes(out, name, grid, o, bc=None):
+    """|flux| (coefficient x edge length) through every spoke at the two poles of every BC function:
+    closed fan with n cells: (n-k)/(2n), k = 1..n (0 on the reference edge);  open fan (grid border or truncated support)
+    with n cells: (n-1)/n before, |2-n|/(2n) on, 1/n after the reference edge; the two boundary spokes carry
+    {(n-1)/n, 1/n} - with n the number of support cells at THAT pole."""
+    if bc is None:
+        bc = api.function_space(grid, "BC", 0, **o)
+    rwg = api.function_space(grid, "RWG", 0, **o)
+    if rwg.global_dof_count != bc.global_dof_count:
+        return
+    bg = grid.barycentric_refinement
+    S = _coarse_support(bc)
+    Sset = set(S)
+    insup = np.zeros(bg.number_of_elements, bool)
+    insup[bc.support_elements] = True
+    T = bc.dof_transformation.tocsc()
+    lens = np.linalg.norm(bg.vertices[:, bg.edges[0, :]] - bg.vertices[:, bg.edges[1, :]], axis=0)
+    cells_at = {}
+    for e in S:
+        for v in grid.elements[:, e]:
+            cells_at.setdefault(int(v), []).append(e)
+    # coarse edges with exactly one support cell -> their end points are "open" poles
+    open_v = set()
+    for ce in range(grid.number_of_edges):
+        nb = [int(x) for x in grid.edge_neighbors[ce] if int(x) in Sset]
+        if len(nb) == 1:
+            open_v.update(int(v) for v in grid.edges[:, ce])
+    bary_at = {}
+    for be in bc.support_elements:
+        bary_at.setdefault(int(bg.elements[0, int(be)]), []).append(int(be))
+    for d in range(bc.global_dof_count):
+        g2l = rwg.global2local[d]
+        if len(g2l) == 0:
+            continue
+        ce = int(grid.element_edges[g2l[0][1], g2l[0][0]])
+        v1, v2 = (int(v) for v in grid.edges[:, ce])
+        col = np.asarray(T[:, d].todense()).ravel()
+        info = {}
+        for v in (v1, v2):
+            n = len(cells_at.get(v, []))
+            mags, bnd = {}, []
+            for be in bary_at.get(v, []):
+                for k in (0, 1):
+                    eid = int(bg.element_edges[k, be])
+                    f = abs(col[int(bc.local2global[be, k])]) * lens[eid]
+                    mags[eid] = max(mags.get(eid, 0.0), f)
+            for eid, f in mags.items():
+                nbs = [int(x) for x in bg.edge_neighbors[eid] if insup[int(x)]]
+                if len(nbs) == 1:
+                    bnd.append(f)
+            info[v] = (n, v in open_v, sorted(mags.values()), sorted(bnd))
+        n1, o1, m1, b1 = info[v1]
+        n2, o2, m2, b2 = info[v2]
+        bad = []
+        for v, (n, isopen, mags, bnd) in info.items():
+            out["search_evals"] += len(mags)
+            if n == 0:
+                continue
+            if isopen:
+                allowed = [(n - 1) / n, abs(2 - n) / (2 * n), 1 / n]
+                if len(bnd) == 2 and not np.allclose(bnd, sorted([(n - 1) / n, 1 / n]), atol=1e-10):
+                    bad.append("boundary half-edge fluxes at vertex %d (n=%d cells) are %s, documented %s" % (
+                        v, n, np.round(bnd, 6).tolist(), np.round(sorted([(n - 1) / n, 1 / n]), 6).tolist()))
+            else:
+                allowed = [0.0] + [(n - k) / (2 * n) for k in range(1, n + 1)]
+            off = [f for f in mags if min(abs(f - a) for a in allowed) > 1e-10]
+            if off:
+                bad.append("spoke fluxes %s at vertex %d are not in the documented set for n=%d cells (%s fan)" % (
+                    np.round(off, 6).tolist(), v, n, "open" if isopen else "closed"))
+        if bad:
+            out["failures"].append({
+                "signature": "C10:bc:pole_fluxes:" + _pole_class(o1, o2, n1, n2),
+                "what": "BC (%s) on %s, function %d (edge %d-%d, cells at the poles %d/%d): %s" % (
+                    _opt_name(o), name, d, v1, v2, n1, n2, "; ".join(bad)),
+                "data": {"grid": name, "options": o, "dof": d, "vertices": grid.vertices.tolist(),
+                         "elements": grid.elements.tolist(), "domain_indices": grid.domain_indices.tolist()}})
+
+
+def _fields(grid, sp, rwg):
+    """{coarse edge as a pair of vertex coordinates keys: {centroid key: vector}} for every function of the space."""
+    bg = grid.barycentric_refinement
+    T = sp.dof_transformation.toarray()
+    pt = np.array([[1.0 / 3], [1.0 / 3]])
+    per_elem = {}
+    for be in sp.support_elements:
+        be = int(be)
+        vals = sp.evaluate(be, pt)[:, :, 0]
+        F = vals @ T[sp.local2global[be].astype(int), :]
+        c = bg.vertices[:, bg.elements[:, be]].mean(axis=1)
+        per_elem[tuple(np.round(c, 8))] = F
+    res = {}
+    for d in range(sp.global_dof_count):
+        g2l = rwg.global2local[d]
+        if len(g2l) == 0:
+            continue
+        ce = int(grid.element_edges[g2l[0][1], g2l[0][0]])
+        k = frozenset(tuple(np.round(grid.vertices[:, int(v)], 8)) for v in grid.edges[:, ce])
+        res[k] = {c: F[:, d] for c, F in per_elem.items()}
+    return res
+
+
+def renumbering(out, name, V, E, dom, o, rng):
+    """A BC/RBC function is a geometric object: renumbering vertices and elements must not change it (up to its sign)."""
+    import c10_grids
+    g1 = api.Grid(np.asarray(V, float), np.asarray(E, dtype=np.uint32), np.asarray(dom, dtype=np.uint32))
+    V2, E2, dom2, _ = c10_grids.renumber(np.asarray(V, float), np.asarray(E), np.asarray(dom), rng)
+    g2 = api.Grid(V2, E2, np.asarray(dom2, dtype=np.uint32))
+    for kind in ("BC", "RBC"):
+        try:
+            s1, s2 = api.function_space(g1, kind, 0, **o), api.function_space(g2, kind, 0, **o)
+            r1, r2 = api.function_space(g1, "RWG", 0, **o), api.function_space(g2, "RWG", 0, **o)
+        except Exception:
+            return
+        f1, f2 = _fields(g1, s1, r1), _fields(g2, s2, r2)
+        if set(f1) != set(f2):
+            out["failures"].append({"signature": "C10:%s:renumbering:dof_set" % kind.lower(),
+                                    "what": "%s (%s) on %s: renumbering the grid changes the set of edges carrying a function" % (
+                                        kind, _opt_name(o), name), "data": {"grid": name, "options": o}})
+            continue
+        worst, which = 0.0, None
+        for k in f1:
+            a, b = f1[k], f2[k]
+            if set(a) != set(b):
+                worst, which = float("inf"), k
+                break
+            A = np.array([a[c] for c in sorted(a)])
+            B = np.array([b[c] for c in sorted(a)])
+            out["search_evals"] += A.size
+            err = min(np.abs(A - B).max(), np.abs(A + B).max()) / max(np.abs(A).max(), 1e-300)
+            if err > worst:
+                worst, which = float(err), k
+        out["worst"].setdefault("bc_renumbering", {})[kind] = max(out["worst"].get("bc_renumbering", {}).get(kind, 0.0), worst)
+        if worst > 1e-9:
+            out["failures"].append({
+                "signature": "C10:%s:renumbering" % kind.lower(),
+                "what": "%s (%s) on %s: the function of the edge %s changes by %.3g (relative) when vertices/elements of the "
+                        "same mesh are renumbered" % (kind, _opt_name(o), name,
+                                                      [[float(x) for x in p] for p in sorted(which)], worst),
+                "data": {"grid": name, "options": o, "vertices": np.asarray(V).tolist(), "elements": np.asarray(E).tolist(),
+                         "domain_indices": np.asarray(dom).tolist(), "renumbered_vertices": V2.tolist(),
+                         "renumbered_elements": E2.tolist(), "renumbered_domain_indices": np.asarray(dom2).tolist()}})
+
+
+def border_search(out, grids, rng, thorough, optsets_fn):
+    """Pole fluxes on every catalogue grid and option set; renumbering invariance + pole fluxes on the open grids whose
+    interior edges join border vertices with unequal cell counts."""
+    import c10_grids
+    for name, grid, dom in grids:
+        for o in optsets_fn(grid, dom, thorough):
+            try:
+                pole_fluxes(out, name, grid, o)
+            except Exception as e:
+                if "not implemented for" in str(e) or "connected only by a vertex" in str(e):
+                    continue
+                raise
+    for name, V, E, dom in c10_grids.border_catalogue(rng, thorough):
+        grid = api.Grid(np.asarray(V, float), np.asarray(E, dtype=np.uint32), np.asarray(dom, dtype=np.uint32))
+        opts = [{}] + ([{"segments": [0]}] if thorough else [])
+        for o in opts:
+            pole_fluxes(out, name, grid, o)
+            renumbering(out, name, V, E, dom, o, rng)
+    for name, grid, dom in (grids if thorough else grids[:4]):
+        if grid.number_of_elements <= 12:
+            for o in optsets_fn(grid, dom, thorough)[:2]:
+                try:
+                    renumbering(out, name, grid.vertices, grid.elements, grid.domain_indices, o, rng)
+                except Exception as e:
+                    if "not implemented for" in str(e) or "connected only by a vertex" in str(e):
+                        continue
+                    raise
